@@ -8,10 +8,18 @@ import (
 	"os"
 	"os/exec"
 	"path/filepath"
+	"runtime"
 	"strings"
 	"sync"
 	"time"
+
+	"verif/harness/internal/ev"
+	ref "verif/harness/internal/refhashes"
 )
+
+func evSeed() uint64 { return ev.Seed() }
+
+func refBlake2b64(m []byte) []byte { return ref.Blake2bSum(64, nil, m) }
 
 // catch runs f and reports a panic of the code under test as a string.
 func catch(f func()) (msg string, panicked bool) {
@@ -169,3 +177,205 @@ func (b *pyBatch) run() (int, error) {
 func (r pyReq) alg() string { return r.Alg }
 
 func intp(v int) *int { return &v }
+
+// ---------------------------------------------------------------------------
+// "append to the caller's slice" APIs (hash.Hash.Sum, encoding.BinaryAppender):
+// destination layouts and the contract check.
+
+const dstSentinel = 0xc3
+
+// sumLayouts counts the destination layouts handed to Sum (tests run sequentially).
+var sumLayouts = map[string]int{}
+var sumCalls int
+
+func flushSumLayouts(c interface{ ClassN(string, int) }) {
+	for k, v := range sumLayouts {
+		c.ClassN("sum-layout:"+k, v)
+	}
+	sumLayouts = map[string]int{}
+}
+
+// mkDst builds a destination slice holding prefix with exactly `spare` bytes of
+// spare capacity (filled with a sentinel).  backing is the whole array.
+func mkDst(prefix []byte, spare int) (dst, backing []byte) {
+	backing = make([]byte, len(prefix)+spare)
+	copy(backing, prefix)
+	for i := len(prefix); i < len(backing); i++ {
+		backing[i] = dstSentinel
+	}
+	return backing[:len(prefix):len(backing)], backing
+}
+
+// dstSpare derives a capacity class from the prefix length without consuming
+// random draws: exact capacity, spare capacity smaller than the appended data
+// (forces a reallocation), or ample spare capacity.
+func dstSpare(prefixLen, appended int) (spare int, class string) {
+	switch prefixLen % 3 {
+	case 0:
+		return 0, "cap=exact"
+	case 1:
+		return max(1, appended/2), "cap=spare<needed"
+	default:
+		return appended + 9, "cap=spare>=needed"
+	}
+}
+
+// checkAppend verifies result == prefix || appended, that the caller's prefix
+// bytes are intact in the original array and, when the result still lives in
+// the caller's array, that nothing beyond the result was written.
+func checkAppend(what string, prefix, backing, result, appended []byte) error {
+	if len(result) != len(prefix)+len(appended) || !bytes.Equal(result[:len(prefix)], prefix) || !bytes.Equal(result[len(prefix):], appended) {
+		return fmt.Errorf("%s: result (%d bytes) is not prefix (%d bytes) || expected appended data (%d bytes): got %s", what, len(result), len(prefix), len(appended), hx(result))
+	}
+	if !bytes.Equal(backing[:len(prefix)], prefix) {
+		return fmt.Errorf("%s: the caller's existing bytes were modified: %x, were %x", what, backing[:len(prefix)], prefix)
+	}
+	if len(backing) > 0 && len(result) > 0 && &result[0] == &backing[0] {
+		if len(result) > len(backing) {
+			return fmt.Errorf("%s: result of %d bytes claims the caller's %d-byte array", what, len(result), len(backing))
+		}
+		for i := len(result); i < len(backing); i++ {
+			if backing[i] != dstSentinel {
+				return fmt.Errorf("%s: byte %d of the caller's array (beyond the %d-byte result) was written", what, i, len(result))
+			}
+		}
+	}
+	return nil
+}
+
+// sumInto calls h.Sum on a destination laid out per dstSpare and checks the append contract.
+func sumInto(h interface{ Sum([]byte) []byte }, prefix, want []byte) (class string, err error) {
+	sel := len(prefix)
+	if sel == 0 {
+		// empty destination: rotate through the capacity classes (execution order is deterministic)
+		sumCalls++
+		sel = []int{0, 1, 2}[sumCalls%3]
+	}
+	spare, class := dstSpare(sel, len(want))
+	dst, backing := mkDst(prefix, spare)
+	got := h.Sum(dst)
+	if len(prefix) == 0 {
+		sumLayouts["prefix=empty,"+class]++
+	} else {
+		sumLayouts["prefix=nonempty,"+class]++
+	}
+	return class, checkAppend(fmt.Sprintf("Sum(%d-byte slice, %s)", len(prefix), class), prefix, backing, got, want)
+}
+
+// ---------------------------------------------------------------------------
+// Concurrency part: package-level entry points and separate objects are used
+// from several goroutines at once by every real caller.  Expected values are
+// computed beforehand, sequentially, by the reference; the goroutines then
+// run their job lists for a fixed number of rounds (bounded by iteration
+// count, never by wall clock) and every result must equal its expected value.
+
+type concJob struct {
+	name string
+	run  func() []byte
+	want []byte
+}
+
+// drbg is a deterministic byte source derived from the driver's seed
+// (reference BLAKE2b in counter mode); used only to pick concurrent inputs.
+type drbg struct {
+	key []byte
+	ctr uint64
+	buf []byte
+}
+
+func newDRBG(label string) *drbg {
+	return &drbg{key: []byte(fmt.Sprintf("%s/%d", label, evSeed()))}
+}
+
+func (d *drbg) bytes(n int) []byte {
+	for len(d.buf) < n {
+		d.ctr++
+		d.buf = append(d.buf, refBlake2b64(append([]byte(fmt.Sprintf("%d|", d.ctr)), d.key...))...)
+	}
+	out := append([]byte{}, d.buf[:n]...)
+	d.buf = d.buf[n:]
+	return out
+}
+
+func (d *drbg) intn(n int) int {
+	b := d.bytes(4)
+	return int((uint32(b[0]) | uint32(b[1])<<8 | uint32(b[2])<<16 | uint32(b[3])<<24) % uint32(n))
+}
+
+// runConcurrent starts one goroutine per job list behind a common start
+// barrier; each runs its list `rounds` times.  It returns a description of
+// the first wrong result (or panic), "" if every result was right, and the
+// number of calls made.
+func runConcurrent(lists [][]concJob, rounds int) (string, int) {
+	old := runtime.GOMAXPROCS(0)
+	if old < 4 {
+		runtime.GOMAXPROCS(4)
+		defer runtime.GOMAXPROCS(old)
+	}
+	start := make(chan struct{})
+	var wg sync.WaitGroup
+	var mu sync.Mutex
+	first := ""
+	calls := 0
+	for w, list := range lists {
+		wg.Add(1)
+		go func(w int, list []concJob) {
+			defer wg.Done()
+			n := 0
+			report := func(s string) {
+				mu.Lock()
+				if first == "" {
+					first = s
+				}
+				mu.Unlock()
+			}
+			defer func() {
+				mu.Lock()
+				calls += n
+				mu.Unlock()
+			}()
+			<-start
+			for r := 0; r < rounds; r++ {
+				// rotate the starting point so that different phases of different jobs overlap
+				for i := range list {
+					j := list[(i+r+w)%len(list)]
+					var got []byte
+					if msg, p := catch(func() { got = j.run() }); p {
+						report(fmt.Sprintf("goroutine %d of %d, round %d: %s panicked: %s", w, len(lists), r, j.name, msg))
+						return
+					}
+					n++
+					if !bytes.Equal(got, j.want) {
+						report(fmt.Sprintf("goroutine %d of %d, round %d: %s returned %s while other goroutines were working on different inputs; sequentially computed reference value %s", w, len(lists), r, j.name, hx(got), hx(j.want)))
+						return
+					}
+				}
+			}
+		}(w, list)
+	}
+	close(start)
+	wg.Wait()
+	return first, calls
+}
+
+// concPart runs the job generator for k = 2, 4, 8 goroutines (and a drawn k in 2..8).
+// mk(worker index) must return that worker's job list with expected values already computed.
+func concPart(label string, callsTarget int, mk func(d *drbg, w int) []concJob) (failure string, calls int, ks []int) {
+	d := newDRBG(label)
+	ks = []int{2, 8, 2 + d.intn(7)}
+	for _, k := range ks {
+		lists := make([][]concJob, k)
+		per := 0
+		for w := range lists {
+			lists[w] = mk(d, w)
+			per += len(lists[w])
+		}
+		rounds := max(2, callsTarget/max(1, per))
+		f, n := runConcurrent(lists, rounds)
+		calls += n
+		if f != "" {
+			return fmt.Sprintf("k=%d goroutines: %s", k, f), calls, ks
+		}
+	}
+	return "", calls, ks
+}
